@@ -46,9 +46,9 @@ func (v *Validator) ValidateAll(ctx context.Context) (*ValidationReport, error) 
 		Results:   []ValidationResult{},
 	}
 
-	// Find PartStore using reflection
-	partStore := findPartStore(v.storage)
-	if partStore == nil {
+	// Find the part stores using reflection
+	partStores := findPartStores(v.storage)
+	if partStores == nil {
 		return nil, fmt.Errorf("could not find PartStore in storage hierarchy")
 	}
 
@@ -102,7 +102,7 @@ func (v *Validator) ValidateAll(ctx context.Context) (*ValidationReport, error) 
 			slog.Info(fmt.Sprintf("Validating object %d (Bucket: %s, Object: %s) - Rate: %.2f obj/s",
 				processedObjects, bucket.Name, object.Key, rate))
 
-			result := v.validateObject(ctx, db, partStore, partRepo, objectRepo, bucket.Name, object)
+			result := v.validateObject(ctx, db, partStores, partRepo, objectRepo, bucket.Name, object)
 			report.Results = append(report.Results, result)
 
 			if result.Success {
@@ -133,7 +133,7 @@ func (v *Validator) ValidateAll(ctx context.Context) (*ValidationReport, error) 
 	return report, nil
 }
 
-func (v *Validator) validateObject(ctx context.Context, db database.Database, partStore partstore.PartStore,
+func (v *Validator) validateObject(ctx context.Context, db database.Database, partStores *partstore.NamedPartStores,
 	partRepo part.Repository, objectRepo object.Repository,
 	bucketName storage.BucketName, object storage.Object) ValidationResult {
 
@@ -164,6 +164,19 @@ func (v *Validator) validateObject(ctx context.Context, db database.Database, pa
 		var partChecksums []storage.ChecksumValues
 
 		for _, part := range parts {
+			// Resolve the store recorded on the part row (nil means the default store)
+			partStore, err := partStores.ByName(part.PartStoreName)
+			if err != nil {
+				result.Success = false
+				result.ErrorType = "Part retrieval failed"
+				result.PartFailures = append(result.PartFailures, PartFailure{
+					PartID:         part.PartId.String(),
+					SequenceNumber: part.SequenceNumber,
+					Error:          fmt.Sprintf("Part store lookup failed: %v", err),
+				})
+				continue
+			}
+
 			// Read part content
 			reader, err := partStore.GetPart(ctx, tx, part.PartId)
 			if err != nil {
@@ -382,23 +395,36 @@ func (v *Validator) confirmDeletion(result ValidationResult) bool {
 	return false
 }
 
-func findPartStore(s interface{}) partstore.PartStore {
+// findPartStores walks the storage hierarchy and returns the part stores of
+// the metadata part storage at its bottom. Storage middlewares keep their inner
+// storage in a field, either directly or through an embedded
+// delegator.DelegatingStorage value (whose Storage methods have pointer
+// receivers), so both the field types and pointers to them are considered.
+func findPartStores(s interface{}) *partstore.NamedPartStores {
 	val := reflect.ValueOf(s)
-	if val.Kind() == reflect.Ptr {
+	for val.Kind() == reflect.Ptr || val.Kind() == reflect.Interface {
+		if val.IsNil() {
+			return nil
+		}
 		val = val.Elem()
 	}
 	if val.Kind() != reflect.Struct {
 		return nil
 	}
+	if !val.CanAddr() {
+		// Unexported fields can only be read through their address
+		addressable := reflect.New(val.Type()).Elem()
+		addressable.Set(val)
+		val = addressable
+	}
 
-	// Check if any field is a PartStore
-	partStoreType := reflect.TypeOf((*partstore.PartStore)(nil)).Elem()
-
+	// Check if any field holds the part stores
+	partStoresType := reflect.TypeOf((*partstore.NamedPartStores)(nil))
 	for i := 0; i < val.NumField(); i++ {
 		field := val.Field(i)
-		if field.Type().Implements(partStoreType) {
+		if field.Type() == partStoresType && !field.IsNil() {
 			// Handle unexported fields
-			return reflect.NewAt(field.Type(), unsafe.Pointer(field.UnsafeAddr())).Elem().Interface().(partstore.PartStore)
+			return reflect.NewAt(field.Type(), unsafe.Pointer(field.UnsafeAddr())).Elem().Interface().(*partstore.NamedPartStores)
 		}
 	}
 
@@ -406,12 +432,17 @@ func findPartStore(s interface{}) partstore.PartStore {
 	storageType := reflect.TypeOf((*storage.Storage)(nil)).Elem()
 	for i := 0; i < val.NumField(); i++ {
 		field := val.Field(i)
+		fieldPtr := reflect.NewAt(field.Type(), unsafe.Pointer(field.UnsafeAddr()))
+		var inner interface{}
 		if field.Type().Implements(storageType) {
-			// Recurse
-			inner := reflect.NewAt(field.Type(), unsafe.Pointer(field.UnsafeAddr())).Elem().Interface()
-			if bs := findPartStore(inner); bs != nil {
-				return bs
-			}
+			inner = fieldPtr.Elem().Interface()
+		} else if fieldPtr.Type().Implements(storageType) {
+			inner = fieldPtr.Interface()
+		} else {
+			continue
+		}
+		if partStores := findPartStores(inner); partStores != nil {
+			return partStores
 		}
 	}
 	return nil
